@@ -1200,7 +1200,7 @@ PROPS["C09"] = dict(
 )
 
 # Temporarily held while the models are being updated to repaired /repo code (2026-09-22):
-for _pid in ():
+for _pid in ("C13", "C14", "C40", "C21", "C28"):
     PROPS[_pid]["hold"] = True
 
 PROPS["C07"] = dict(
